@@ -7,5 +7,9 @@ CONSTANTS
   PanicKinds = {"str"}
   Breaker = FALSE
   Emit = FALSE
+  BeginOuts = {"ok", "fail", "bad", "noconn"}
+  StmtErrs = {"plain"}
+  FinErrs = {"plain"}
+  CtxKinds = {}
 INVARIANTS NoDeviation
 CHECK_DEADLOCK FALSE
